@@ -13,6 +13,17 @@
 (*              description and nodes / cores / gpus of the agent config   *)
 (*              produced by the real _prepare_pilot                        *)
 (*                                                                         *)
+(*   AgentRM    (after a Prepared) the platform's real resource manager     *)
+(*              initialised from the agent config _prepare_pilot wrote, in *)
+(*              a faked allocation of the size the job requests            *)
+(* kind "bulk" (one per bulk of 2-3 pilots run through the real work() ->  *)
+(*   _start_pilot_bulk -> _prepare_pilot):                                 *)
+(*   Bulk       _start_pilot_bulk(resource, schema, pilots) was entered    *)
+(*   BPrepared  _prepare_pilot returned for a pilot: endpoints of the      *)
+(*              resource config it was given, figures as in Prepared       *)
+(*   Submit     the launcher was handed the pilots (ok = it did not raise) *)
+(*   Adv        advance(pilots, state)                                     *)
+(*                                                                         *)
 (* errs collects <<clause, event index>>; "C17." clauses of the property,  *)
 (* "M17." disagreement between code and model that breaks no clause.      *)
 (* The factories' domains are constants of the batch.                      *)
@@ -26,9 +37,9 @@ Dom == [rm |-> DomRM, lm |-> DomLM, sched |-> DomSched, exec |-> DomExec, agent 
 Batch  == JsonDeserialize(IOEnv.TRACE_FILE)
 Traces == Batch.traces
 
-VARIABLES tid, l, errs, fin
+VARIABLES tid, l, bst, errs, fin
 
-vars == <<tid, l, errs, fin>>
+vars == <<tid, l, bst, errs, fin>>
 
 T  == Traces[tid]
 Ev == T.events
@@ -40,9 +51,35 @@ ToPair(e) == [name |-> T.name, schema |-> T.schema, ok |-> e.ok, rm |-> e.rm, lm
               agentcfg |-> e.agentcfg, defschema |-> e.defschema, schemas |-> SeqSet(e.schemas),
               jm |-> e.jm, fs |-> e.fs]
 
+(* ---- bulk traces: bookkeeping per pilot ------------------------------------ *)
+Pids       == {T.pilots[i].pid : i \in 1 .. Len(T.pilots)}
+Pilot(pid) == CHOOSE p \in SeqSet(T.pilots) : p.pid = pid
+Named(pid) == <<Pilot(pid).plat, Pilot(pid).schema>>
+
+SizeErrs(p, s, o) ==
+       E(Minimal(p, s, o),     "C17.Minimal")
+  \cup E(CoversReq(p, s, o),   "C17.Covers")
+  \cup E(NodesGiven(p, s, o),  "C17.NodesGiven")
+  \cup E(JobSized(p, s, o),    "C17.JobSized")
+  \cup E(AgentAgrees(p, s, o), "C17.AgentAgrees")
+  \cup E(o.jd = Prepared(p, s).jd /\ o.agent = Prepared(p, s).agent, "M17.Arithmetic")
+
+\* the agent's resource manager works with the figures the job requested
+AgentRMAgrees(p, s, o, e) ==
+  /\ e.ok /\ e.uniform
+  /\ e.ncores = CpnT(p, s) /\ e.cpn = AvailC(p, s) /\ SeqSet(e.downc) = SeqSet(p.bc)
+  /\ e.ngpus = p.gpn /\ e.gpn = AvailG(p) /\ SeqSet(e.downg) = SeqSet(p.bg)
+  /\ e.nnodes = o.agent.nodes
+  /\ e.cpn * o.jd.nodes = o.jd.cpus
+  /\ AvailG(p) > 0 => e.gpn * o.jd.nodes = o.jd.gpus
+
 Init ==
   /\ tid \in 1 .. Len(Traces)
   /\ l = 1 /\ errs = {} /\ fin = FALSE
+  /\ bst = IF Traces[tid].kind = "bulk"
+           THEN [under |-> [q \in {Traces[tid].pilots[i].pid : i \in 1 .. Len(Traces[tid].pilots)} |-> <<>>],
+                 cur |-> <<>>, failed |-> {}, launched |-> {}]
+           ELSE [under |-> <<>>, cur |-> <<>>, failed |-> {}, launched |-> {}]
 
 Step ==
   /\ ~fin /\ l <= Len(Ev)
@@ -50,11 +87,13 @@ Step ==
      /\ l' = l + 1
      /\ fin' = FALSE
      /\ CASE e.ev = "Config" ->
-               errs' = errs \cup At(ResolveErrs(ToPair(e), Dom), l)
+               /\ errs' = errs \cup At(ResolveErrs(ToPair(e), Dom), l)
+               /\ UNCHANGED bst
           [] e.ev = "Factories" ->
                \* what the real factories said for the names of the Config event
                LET t == ToPair(Ev[l - 1]) IN
-               errs' = errs \cup At(
+               /\ UNCHANGED bst
+               /\ errs' = errs \cup At(
                       E(e.rm # "unknown", "C17.RMExists")
                  \cup E(\A i \in 1 .. Len(e.lms) : e.lms[i] # "unknown", "C17.LaunchMethodsExist")
                  \cup E(e.sched # "unknown", "C17.SchedulerExists")
@@ -69,25 +108,51 @@ Step ==
                  \cup E((e.exec # "unknown") = ExecExists(t, Dom), "M17.DomainExec")
                  \cup E(e.agent = AgentExists(t, Dom), "M17.DomainAgent"), l)
           [] e.ev = "Prepared" ->
-               LET p == T.plat
-                   s == e.size
-                   o == [jd |-> e.jd, agent |-> e.agent] IN
-               IF ~e.ok THEN errs' = errs \cup {<<"C17.Prepares", l>>}
-               ELSE errs' = errs \cup At(
-                      E(Minimal(p, s, o),     "C17.Minimal")
-                 \cup E(CoversReq(p, s, o),   "C17.Covers")
-                 \cup E(NodesGiven(p, s, o),  "C17.NodesGiven")
-                 \cup E(JobSized(p, s, o),    "C17.JobSized")
-                 \cup E(AgentAgrees(p, s, o), "C17.AgentAgrees")
-                 \cup E(o.jd = Prepared(p, s).jd /\ o.agent = Prepared(p, s).agent, "M17.Arithmetic"), l)
-          [] OTHER -> errs' = errs \cup {<<"X.UnknownEvent", l>>}
+               LET o == [jd |-> e.jd, agent |-> e.agent] IN
+               /\ errs' = errs \cup (IF ~e.ok THEN {<<"C17.Prepares", l>>}
+                                     ELSE At(SizeErrs(T.plat, e.size, o), l))
+               /\ UNCHANGED bst
+          [] e.ev = "AgentRM" ->
+               LET q == Ev[l - 1]
+                   o == [jd |-> q.jd, agent |-> q.agent] IN
+               /\ errs' = errs \cup At(E(AgentRMAgrees(T.plat, q.size, o, e), "C17.AgentRMAgrees"), l)
+               /\ UNCHANGED bst
+          [] e.ev = "Bulk" ->
+               /\ bst' = [bst EXCEPT !.cur = <<e.res, e.schema>>]
+               /\ errs' = errs \cup At(E(\A i \in 1 .. Len(e.pids) : Named(e.pids[i]) = <<e.res, e.schema>>,
+                                          "C17.SchemaOfPilot"), l)
+          [] e.ev = "BPrepared" ->
+               LET o  == [jd |-> e.jd, agent |-> e.agent]
+                   pl == Pilot(e.pid) IN
+               /\ bst' = [bst EXCEPT !.under[e.pid] = bst.cur]
+               /\ errs' = errs \cup At(
+                      E(e.jm = pl.jm /\ e.fs = pl.fs /\ e.ajm = pl.jm /\ e.res = pl.plat, "C17.SchemaOfPilot")
+                 \cup (IF e.sized THEN SizeErrs(e.plat, e.size, o) ELSE {}), l)
+          [] e.ev = "Submit" ->
+               /\ bst' = IF e.ok THEN [bst EXCEPT !.launched = @ \cup SeqSet(e.pids)] ELSE bst
+               /\ errs' = errs
+          [] e.ev = "Adv" ->
+               /\ bst' = IF e.state = "FAILED" THEN [bst EXCEPT !.failed = @ \cup SeqSet(e.pids)] ELSE bst
+               /\ errs' = errs
+          [] OTHER -> errs' = errs \cup {<<"X.UnknownEvent", l>>} /\ UNCHANGED bst
   /\ UNCHANGED tid
+
+\* end of a bulk: every pilot was prepared (under what it named: checked at the
+\* events); FAILED exactly the pilots of the bucket whose submission was made to fail
+BulkErrs ==
+  IF T.kind # "bulk" THEN {}
+  ELSE LET n == Len(Ev) + 1 IN
+       At(  E(\A q \in Pids : bst.under[q] # <<>>, "C17.SchemaOfPilot")
+       \cup E(\A q \in Pids :
+                 ((q \in bst.failed /\ bst.under[q] # <<>>) => (Pilot(q).bucket = T.fail))
+                 /\ ((Pilot(q).bucket = T.fail) => (q \in bst.failed)),
+              "C17.LaunchFailureLocal"), n)
 
 Finish ==
   /\ ~fin /\ l > Len(Ev)
   /\ fin' = TRUE
-  /\ PrintT(<<"RESULT", T.tid, errs>>)
-  /\ UNCHANGED <<tid, l, errs>>
+  /\ PrintT(<<"RESULT", T.tid, errs \cup BulkErrs>>)
+  /\ UNCHANGED <<tid, l, bst, errs>>
 
 Next == Step \/ Finish
 Spec == Init /\ [][Next]_vars
